@@ -27,10 +27,15 @@ def run(ctx):
                       "parent stores the first child's pid into *pgid")
     ctx.rule("R07-4", "give_terminal_to: SIGTSTP, SIGTTIN, SIGTTOU, SIGCHLD blocked before tcsetpgrp and the old mask "
                       "restored after it on every path")
+    ctx.rule("R07-6", "fg and bg resume the whole job: killpg(job.gid, SIGCONT) is on every path to the wait (fg) / to "
+                      "marking the job running (bg), not conditional on the recorded job status (which can be stale)")
+    ctx.rule("R07-7", "the parent also calls setpgid(child, *pgid) after every fork: a later stage may run its own "
+                      "setpgid(0, pgid) before the first stage has created the group (both sides must set it)")
     ctx.rule("R07-5", "main: every path of the Input(line) arm reaches try_wait_bg_jobs before the next read_line")
     for crate in ctx.crates:
         pairing_rule(ctx, crate)
         fg_rule(ctx, crate)
+        resume_rule(ctx, crate)
         handover_rule(ctx, crate)
         mask_rule(ctx, crate)
         if crate.kind == "bin":
@@ -195,6 +200,27 @@ def handover_rule(ctx, crate):
         bad = [bb for f, cls, bb in fails if f["id"] == o["id"]]
         ctx.ob("R07-3", body.path, "%s %s before exec" % (o["id"], o["desc"]), not bad,
                key="R07-3|%s|%s" % (body.path, o["id"]), crate=crate.kind)
+    # parent side setpgid(child, *pgid) on every parent path to return
+    fails_sh, n2 = m.explore(lambda bb: body.term(bb)["k"] == "return", "shell")
+    pset = []
+    for bb, t, c in body.calls():
+        if last_seg(c) == "setpgid":
+            a = [body.expand_vars(strip_sites(x)) for x in body.call_args(bb)]
+            from_child = any(sub[0] == "downcast" and sub[1] == "Parent" for sub in mir.subexprs(a[0]))
+            grp = len(a) > 1 and (a[1] == strip_sites(m.s.pgid) or any(
+                sub[0] == "downcast" and sub[1] == "Parent" for sub in mir.subexprs(a[1])))
+            if from_child and grp:
+                pset.append(bb)
+    parent_entry = None
+    for bb in sorted(body.reachable):
+        for tgt, atom, val in body.switch_edges(bb):
+            if atom[0] == "discr" and val == "Parent":
+                parent_entry = tgt
+    ok7 = bool(pset) and parent_entry is not None and flow.must_pass(body, parent_entry, set(pset), set(body.exits()))
+    ctx.ob("R07-7", body.path, "parent calls setpgid(child, *pgid) on every path after fork", ok7,
+           key="R07-7|%s|parent-setpgid" % body.path, crate=crate.kind,
+           detail=None if ok7 else "race: stage i+1 can call setpgid(0, pgid) before stage 0 has made itself group leader; "
+                                   "the call fails and that stage stays in the shell's process group")
     # parent: *pgid = child pid for stage 0
     ok = False
     for bi, si, s in body.stmts():
@@ -267,3 +293,30 @@ def main_rule(ctx, crate):
     ok = flow.must_pass(m, starts[0], polls, {reads[0]})
     ctx.ob("R07-5", "main", "try_wait_bg_jobs before the next read_line on every path of the Input arm", ok,
            key="R07-5|main|poll", where=m.loc(starts[0]), crate=crate.kind)
+
+
+def resume_rule(ctx, crate):
+    for fn_, target in (("builtins::fg::run", "wait_fg_job"), ("builtins::bg::run", "mark_job_as_running")):
+        b = crate.fn(fn_)
+        if b is None:
+            ctx.require(crate.kind != "bin", "R07-6", "R07-6|anchor|%s" % fn_, "%s not found" % fn_)
+            continue
+        ctx.analysed(b)
+        tg = [bb for bb, t, c in b.calls() if last_seg(c) == target]
+        kills = []
+        for bb, t, c in b.calls():
+            if last_seg(c) in ("killpg", "kill"):
+                a = b.call_args(bb)
+                if len(a) == 2 and const_int(a[1]) == 18:      # SIGCONT
+                    kills.append(bb)
+        if not ctx.require(len(tg) >= 1, "R07-6", "R07-6|%s|target" % fn_, "no %s call in %s" % (target, fn_), fn_):
+            continue
+        # every path from entry to the target passes a SIGCONT killpg
+        ok = bool(kills) and flow.must_pass(b, 0, set(kills), set(tg))
+        # and the signalled group is the job's gid (field gid of the looked-up job)
+        gid_ok = all(any(flow.is_field_named(s, "gid") for s in mir.subexprs(b.expand_vars(strip_sites(b.call_args(k)[0]))))
+                     for k in kills) if kills else False
+        ctx.ob("R07-6", fn_, "killpg(job.gid, SIGCONT) on every path to %s" % target, ok and gid_ok,
+               key="R07-6|%s|sigcont" % fn_, where=b.loc(tg[0]), crate=crate.kind,
+               detail=None if ok else "a member stopped from outside stays stopped while its job is (fore)ground: the recorded "
+                                      "job status is only updated at the next prompt-time poll")
